@@ -206,6 +206,14 @@ def run(chk):
     for fn, o in load_corpus("C14"):
         if "source" in o:
             corpus.append((o["source"], None, o.get("known")))
+    # multi-declarator declarations with annotations and modifiers: every declarator carries the declaration's type, annotations,
+    # tracked and final flags (compared with the parser model's tree)
+    for anns in ("", "@tracked ", "@tracked @tracked ", "final ", "@tracked final "):
+        for ty in ("qubit", "qubit[2]", "int", "bit", "Foo"):
+            for names in ("a, b", "a, b, c", "a"):
+                for tail in ("", " measure a;", " int z = 1;"):
+                    corpus.append(("function main() -> void { %s%s %s;%s }" % (anns, ty, names, tail), None, None))
+                    corpus.append(("class K { public constructor() -> K = default; public function m() -> void { %s%s %s;%s } }" % (anns, ty, names, tail), None, None))
     lines = ["parse " + hx(s.encode("latin-1")) for s, _ in cases] + ["parse " + hx(c[0].encode("latin-1")) for c in corpus]
     impl, rc, err = run_lines(harness(), lines)
     model, _, _ = driver(lines)
